@@ -46,8 +46,9 @@ def strip_proj(p):
 
 
 class ExprCtx:
-    def __init__(self, body, max_depth=40, pass_calls=(), opaque_calls=()):
+    def __init__(self, body, max_depth=40, pass_calls=(), opaque_calls=(), at=None):
         self.body = body
+        self.at = at    # block of the use: definitions that cannot reach it are not alternatives (flow sensitivity)
         self.max_depth = max_depth
         self.pass_calls = list(PASS_CALLS) + list(pass_calls)
         self.opaque = list(opaque_calls)
@@ -87,6 +88,12 @@ class ExprCtx:
         if not ds:
             return ("l", l, strip_proj(p))
         alts = []
+        if self.at is not None:
+            dblocks = set(d[0] for d in ds)
+            ds = [d for d in ds if d[0] == self.at or body.find_path(d[0], {self.at}) is not None]
+            if 1 <= l <= body.argc and (self.at == 0 or self.at not in dblocks and
+                                        body.find_path(0, {self.at}, removed=dblocks) is not None):
+                alts.append(("p", l, strip_proj(p)))   # the parameter's own value still reaches the use
         for (bi, si) in ds:
             alts.append(self._def(bi, si, p, depth + 1, stack))
         uniq = []
